@@ -130,6 +130,17 @@ mod ssl;
 mod test;
 mod util;
 
+/// Window onto internal components for the external verification harness.
+/// Only compiled with `--cfg tiny_http_verif`; adds no code otherwise.
+#[cfg(tiny_http_verif)]
+pub mod verif {
+    pub use crate::request::{new_request, RequestCreationError};
+    pub use crate::util::{
+        parse_header_value, EqualReader, FusedReader, MessagesQueue, SequentialReader,
+        SequentialReaderBuilder, SequentialWriter, SequentialWriterBuilder, TaskPool,
+    };
+}
+
 /// The main class of this library.
 ///
 /// Destroying this object will immediately close the listening socket and the reading
